@@ -53,11 +53,13 @@ def build(spec):
             raise Invalid()
         grp = C.AceGroup(items=list(A.flat_items(acl.items)), platform=acl.platform, note=note)
         return grp
+    if spec.get("max_ncwb") is not None and spec["max_ncwb"] not in (8, 16, 20, 30):
+        raise Invalid()
     if kind == "ace":
         G.validate_rec(spec["rec"], platform)
         if not all(G.addr_is_native(spec["rec"][s], platform) for s in ("src", "dst")):
             raise Invalid()  # foreign spellings converge in two steps (C06); C16 is stated over the native domain
-        ace = A.build_ace(spec["rec"], platform, note=note)
+        ace = A.build_ace(spec["rec"], platform, note=note, **({"max_ncwb": spec["max_ncwb"]} if spec.get("max_ncwb") else {}))
         for ad in (ace.srcaddr, ace.dstaddr):
             for j, m in enumerate(ad.items):
                 m.note = Note(["member", j])
@@ -71,7 +73,8 @@ def build(spec):
         G.validate_addr(spec["a"])
         if not G.addr_is_native(spec["a"], platform):
             raise Invalid()
-        ad = C.Address(G.render_addr(spec["a"], platform), platform=platform, note=note)
+        ad = C.Address(G.render_addr(spec["a"], platform), platform=platform, note=note,
+                       **({"max_ncwb": spec["max_ncwb"]} if spec.get("max_ncwb") else {}))
         if spec["a"]["k"] == "group":
             ad.items = A.member_lines(spec["a"])
         return ad
@@ -87,7 +90,11 @@ def build(spec):
                                platform=platform, note=note)
         head = ("object-group network " if platform == "ios" else "object-group ip address ") + "G"
         body = [member_text(m, platform, i) for i, m in enumerate(members)]
-        grp = C.AddrGroup(head + "\n" + "\n".join(" " + s for s in body), platform=platform, note=note)
+        extra = {"max_ncwb": spec["max_ncwb"]} if spec.get("max_ncwb") is not None else {}
+        if spec.get("wide") and platform == "nxos":
+            body.append("10.0.0.0 0.255.255.128")  # 17 non-contiguous bits: needs max_ncwb > 16
+            extra["max_ncwb"] = 30
+        grp = C.AddrGroup(head + "\n" + "\n".join(" " + s for s in body), platform=platform, note=note, **extra)
         for j, m in enumerate(grp.items):
             m.note = Note(["member", j])
         return grp
@@ -352,6 +359,8 @@ def obj_st(draw, small_acl=False):
                                  "addrgroup", "port", "protocol", "option", "wildcard"]))
     platform = draw(st.sampled_from(["ios", "nxos"]))
     spec = {"kind": kind, "platform": platform}
+    if kind in ("ace", "address", "addrgroup") and draw(st.sampled_from([True, False])):
+        spec["max_ncwb"] = draw(st.sampled_from([8, 20, 30]))
     if kind in ("acl", "acegroup"):
         spec["acl"] = draw(G.acl_st(platform=platform, min_items=1, max_items=6, kmax=2, groups=True, members=True,
                                     seqs=True, neq_multi=False))
@@ -369,6 +378,7 @@ def obj_st(draw, small_acl=False):
         a = draw(G.addr_st(kmax=3, groups=True))
         spec["a"] = a if a["k"] == "group" else G.native_addr(G.addr_pair(a), platform)
     elif kind in ("member", "addrgroup"):
+        spec["wide"] = draw(st.sampled_from([True, False, False]))
         mem = []
         for _ in range(draw(st.integers(1, 4))):
             w = (1 << (32 - draw(st.integers(8, 32)))) - 1
